@@ -145,7 +145,7 @@ func (h *headServer) ServeHTTP(w http.ResponseWriter, r *http.Request) {
 
 func TestCheck(t *testing.T) {
 	r := vp.New("C03", "exploration",
-		"publisher side: every root of a 10-CID alphabet (v0, v1 x 3 codecs x 3 hash functions) x 4 topics (none, ascii, unicode, 256 bytes) x key types: the real Publisher's /head answer is validated by the reference; one publisher taken through every ordered pair of roots (root, other root, first root again), the head verified after every change. Client side: for each of a corpus of valid encoded heads (key types x topics) served verbatim to the real Syncer.GetHead (libp2p-HTTP discovery and plain HTTP): every single-byte substitution, every truncation, and field-level alterations (CID replaced, topic added/removed/changed, key of another identity of the same and another type, signature of another head, key+signature swapped between two valid heads, re-signed by another identity, empty key, empty signature); every field-level alteration served cold (fresh Syncer) and after each of 5 histories of valid heads on a reused Syncer ([valid], [other root], [valid, other], [other, valid], [valid, valid]), each altered head served up to 3 times in a row, followed by both valid heads again; every byte-level alteration right after the valid head on a reused Syncer (every 8th also cold); every alteration class also through Subscriber.SyncAdChain, cold and after a healthy sync with a head query (altered head derived from the head served before, and from the current one). Non-trivial: every altered head. Distinct = distinct (head, alteration).",
+		"publisher side: every root of a 10-CID alphabet (v0, v1 x 3 codecs x 3 hash functions) x 4 topics (none, ascii, unicode, 256 bytes) x key types: the real Publisher's /head answer is validated by the reference; one publisher taken through every ordered pair of roots (root, other root, first root again), the head verified after every change. Client side: for each of a corpus of valid encoded heads (key types x topics) served verbatim to the real Syncer.GetHead (libp2p-HTTP discovery and plain HTTP): every single-byte substitution, every truncation, and field-level alterations (CID replaced, topic added/removed/changed, key of another identity of the same and another type, signature of another head, key+signature swapped between two valid heads, re-signed by another identity, empty key, empty signature); every field-level alteration served cold (fresh Syncer) and after each of 5 histories of valid heads on a reused Syncer ([valid], [other root], [valid, other], [other, valid], [valid, valid]), each altered head served up to 3 times in a row, followed by both valid heads again; every byte-level alteration right after the valid head on a reused Syncer (every 8th also cold); every alteration class also through Subscriber.SyncAdChain, cold and after a healthy sync with a head query (altered head derived from the head served before, and from the current one), with the publisher named in the ID field of the AddrInfo and named only by a /p2p component of its addresses. Non-trivial: every altered head. Distinct = distinct (head, alteration).",
 		"reference validator (generic DAG-JSON decode + libp2p crypto) is the oracle; an altered encoding is required to be rejected only when the reference rejects it (byte changes that alter no value are not alterations)",
 		"announce-triggered syncs do not query the head and are out of this property's reach",
 		"ECDSA signatures are randomised by the signer (libp2p/crypto), so the encoded ECDSA head, and with it the number of byte positions enumerated, varies by a few bytes between runs; every other fixture is deterministic",
@@ -486,120 +486,140 @@ func throughSubscriber(t *testing.T, r *vp.Recorder, kt string) {
 	// head that was served then (so that key and signature are ones the syncer
 	// has already verified); "warm-current" = same history, altered head derived
 	// from the current valid head, the other head being the one served before
-	for _, mode := range []string{"cold", "warm-replay", "warm-current"} {
-		for _, disc := range []bool{true, false} {
-			for ti, topic := range []string{"", "/indexer/ingest/mainnet"} {
-				base := fmt.Sprintf("sub|%s|disc=%v|%s|topic%d", mode, disc, kt, ti)
-				var names []string
-				{
-					_, _, alts := fieldAlterations(kt, topic, fixture.Cid("x", cid.DagJSON))
-					for _, a := range alts {
-						names = append(names, a.name)
+	// naming: how the caller names the publisher it wants to sync: "id" = in the
+	// ID field of the AddrInfo; "addr" = only as a /p2p/<id> component of the
+	// addresses (ID field empty), which the subscriber is documented to accept
+	// and from which it has to recover the expected signer.
+	for _, naming := range []string{"id", "addr"} {
+		for _, mode := range []string{"cold", "warm-replay", "warm-current"} {
+			for _, disc := range []bool{true, false} {
+				for ti, topic := range []string{"", "/indexer/ingest/mainnet"} {
+					base := fmt.Sprintf("sub|%s|disc=%v|%s|topic%d", mode, disc, kt, ti)
+					if naming != "id" {
+						base += "|named-by-" + naming
 					}
-				}
-				for ai, name := range names {
-					key := base + "|" + name
-					if !r.Mine(key) {
-						continue
+					target := func(p *syncfx.Pub) peer.AddrInfo {
+						ai := p.AddrInfo()
+						if naming == "id" {
+							return ai
+						}
+						out := peer.AddrInfo{}
+						for _, a := range ai.Addrs {
+							out.Addrs = append(out.Addrs, multiaddr.Join(a, multiaddr.StringCast("/p2p/"+ai.ID.String())))
+						}
+						return out
 					}
-					r.Eval(key, true)
-					leak := syncfx.Bubble(t, func(t *testing.T) {
-						w := syncfx.NewWorld()
-						defer w.Close()
-						id := fixture.Key(kt, 0)
-						p := w.AddPub(id, disc, ipnisync.WithHeadTopic(topic))
-						ch := syncfx.BuildAdChain(p.Src, id, 3, syncfx.DefaultProto, "c03")
-						sub := w.NewSubscriber()
-						// a first healthy sync of the oldest ad fixes a latest-synced value
-						if _, err := sub.SyncAdChain(context.Background(), p.AddrInfo(), dagsync.WithHeadAdCid(ch.Cids[0])); err != nil {
-							r.Violation("subscriber:setup", key, err.Error(), nil)
-							return
+					var names []string
+					{
+						_, _, alts := fieldAlterations(kt, topic, fixture.Cid("x", cid.DagJSON))
+						for _, a := range alts {
+							names = append(names, a.name)
 						}
-						if err := sub.SetLatestSync(id.ID, ch.Cids[0]); err != nil {
-							panic(err)
+					}
+					for ai, name := range names {
+						key := base + "|" + name
+						if !r.Mine(key) {
+							continue
 						}
-						baseline := ch.Cids[0]
-						var body []byte
-						switch mode {
-						case "cold":
-							p.Publisher.SetRoot(ch.Cids[2])
-							_, _, _, alts := fieldAlterations2(kt, topic, ch.Cids[2], fixture.Cid("another-root", cid.DagJSON))
-							body = alts[ai].body
-						default:
-							// healthy sync with a head query: the syncer has verified the head of Cids[1]
-							p.Publisher.SetRoot(ch.Cids[1])
-							got, err := sub.SyncAdChain(context.Background(), p.AddrInfo())
-							synctest.Wait()
-							if err != nil || !got.Equals(ch.Cids[1]) {
-								r.Violation("subscriber:setup", key, fmt.Sprintf("healthy sync with head query: %s, %v", got, err), nil)
+						r.Eval(key, true)
+						leak := syncfx.Bubble(t, func(t *testing.T) {
+							w := syncfx.NewWorld()
+							defer w.Close()
+							id := fixture.Key(kt, 0)
+							p := w.AddPub(id, disc, ipnisync.WithHeadTopic(topic))
+							ch := syncfx.BuildAdChain(p.Src, id, 3, syncfx.DefaultProto, "c03")
+							sub := w.NewSubscriber()
+							// a first healthy sync of the oldest ad fixes a latest-synced value
+							if _, err := sub.SyncAdChain(context.Background(), target(p), dagsync.WithHeadAdCid(ch.Cids[0])); err != nil {
+								r.Violation("subscriber:setup", key, err.Error(), nil)
 								return
 							}
-							baseline = ch.Cids[1]
-							p.Publisher.SetRoot(ch.Cids[2])
-							if mode == "warm-replay" {
-								_, _, _, alts := fieldAlterations2(kt, topic, ch.Cids[1], ch.Cids[2])
-								body = alts[ai].body
-							} else {
-								_, _, _, alts := fieldAlterations2(kt, topic, ch.Cids[2], ch.Cids[1])
-								body = alts[ai].body
+							if err := sub.SetLatestSync(id.ID, ch.Cids[0]); err != nil {
+								panic(err)
 							}
-						}
-						if _, _, rok, _ := refValidate(body, id.ID); rok {
-							r.Count("alterations_semantically_valid", 1)
-							return
-						}
-						p.Script = func(rq *syncfx.Req) *syncfx.Fault {
-							if rq.Kind == "head" {
-								return &syncfx.Fault{Kind: "body", Body: body, Label: name}
+							baseline := ch.Cids[0]
+							var body []byte
+							switch mode {
+							case "cold":
+								p.Publisher.SetRoot(ch.Cids[2])
+								_, _, _, alts := fieldAlterations2(kt, topic, ch.Cids[2], fixture.Cid("another-root", cid.DagJSON))
+								body = alts[ai].body
+							default:
+								// healthy sync with a head query: the syncer has verified the head of Cids[1]
+								p.Publisher.SetRoot(ch.Cids[1])
+								got, err := sub.SyncAdChain(context.Background(), target(p))
+								synctest.Wait()
+								if err != nil || !got.Equals(ch.Cids[1]) {
+									r.Violation("subscriber:setup", key, fmt.Sprintf("healthy sync with head query: %s, %v", got, err), nil)
+									return
+								}
+								baseline = ch.Cids[1]
+								p.Publisher.SetRoot(ch.Cids[2])
+								if mode == "warm-replay" {
+									_, _, _, alts := fieldAlterations2(kt, topic, ch.Cids[1], ch.Cids[2])
+									body = alts[ai].body
+								} else {
+									_, _, _, alts := fieldAlterations2(kt, topic, ch.Cids[2], ch.Cids[1])
+									body = alts[ai].body
+								}
 							}
-							return nil
-						}
-						lst := w.Listen()
-						defer lst.Stop()
-						p.ResetLog()
-						w.ResetHooks()
-						var got cid.Cid
-						var err error
-						if pn, pm := vp.Guard(func() { got, err = sub.SyncAdChain(context.Background(), p.AddrInfo()); synctest.Wait() }); pn {
-							r.Violation("subscriber:panic", key, firstLine(pm), nil)
-							return
-						}
-						if err == nil {
-							r.Violation("subscriber:sync-accepted-altered-head:"+name, key, fmt.Sprintf("%s: SyncAdChain returned %s with a head altered by %s", mode, got, name), nil)
-							return
-						}
-						// the identical response once more on the same subscriber
-						if pn, pm := vp.Guard(func() { got, err = sub.SyncAdChain(context.Background(), p.AddrInfo()); synctest.Wait() }); pn {
-							r.Violation("subscriber:panic", key, firstLine(pm), nil)
-							return
-						}
-						if err == nil {
-							r.Violation("subscriber:sync-accepted-altered-head-when-repeated:"+name, key, fmt.Sprintf("%s: the second SyncAdChain against the same altered head (%s) returned %s", mode, name, got), nil)
-							return
-						}
-						for _, rq := range p.Requests() {
-							if rq.Kind == "block" {
-								r.Violation("subscriber:request-after-rejected-head:"+name, key, mode+": a block was requested after the head was rejected", nil)
+							if _, _, rok, _ := refValidate(body, id.ID); rok {
+								r.Count("alterations_semantically_valid", 1)
 								return
 							}
+							p.Script = func(rq *syncfx.Req) *syncfx.Fault {
+								if rq.Kind == "head" {
+									return &syncfx.Fault{Kind: "body", Body: body, Label: name}
+								}
+								return nil
+							}
+							lst := w.Listen()
+							defer lst.Stop()
+							p.ResetLog()
+							w.ResetHooks()
+							var got cid.Cid
+							var err error
+							if pn, pm := vp.Guard(func() { got, err = sub.SyncAdChain(context.Background(), target(p)); synctest.Wait() }); pn {
+								r.Violation("subscriber:panic", key, firstLine(pm), nil)
+								return
+							}
+							if err == nil {
+								r.Violation("subscriber:sync-accepted-altered-head:"+name, key, fmt.Sprintf("%s: SyncAdChain returned %s with a head altered by %s", mode, got, name), nil)
+								return
+							}
+							// the identical response once more on the same subscriber
+							if pn, pm := vp.Guard(func() { got, err = sub.SyncAdChain(context.Background(), target(p)); synctest.Wait() }); pn {
+								r.Violation("subscriber:panic", key, firstLine(pm), nil)
+								return
+							}
+							if err == nil {
+								r.Violation("subscriber:sync-accepted-altered-head-when-repeated:"+name, key, fmt.Sprintf("%s: the second SyncAdChain against the same altered head (%s) returned %s", mode, name, got), nil)
+								return
+							}
+							for _, rq := range p.Requests() {
+								if rq.Kind == "block" {
+									r.Violation("subscriber:request-after-rejected-head:"+name, key, mode+": a block was requested after the head was rejected", nil)
+									return
+								}
+							}
+							if len(w.HookLog()) != 0 {
+								r.Violation("subscriber:hook-after-rejected-head:"+name, key, mode, nil)
+								return
+							}
+							if l := sub.GetLatestSync(id.ID); l == nil || !l.(cidlink.Link).Cid.Equals(baseline) {
+								r.Violation("subscriber:latest-changed-after-rejected-head:"+name, key, fmt.Sprint(mode, " ", l), nil)
+								return
+							}
+							if evs := lst.Poll(); len(evs) != 0 {
+								r.Violation("subscriber:event-after-rejected-head:"+name, key, fmt.Sprintf("%s %+v", mode, evs[0]), nil)
+								return
+							}
+							r.Outcome("subscriber-rejected-" + mode)
+						})
+						if leak != "" {
+							r.Count("bubble_leaks", 1)
+							r.Note("goroutines left in bubble for %s: %s", key, firstLine(leak))
 						}
-						if len(w.HookLog()) != 0 {
-							r.Violation("subscriber:hook-after-rejected-head:"+name, key, mode, nil)
-							return
-						}
-						if l := sub.GetLatestSync(id.ID); l == nil || !l.(cidlink.Link).Cid.Equals(baseline) {
-							r.Violation("subscriber:latest-changed-after-rejected-head:"+name, key, fmt.Sprint(mode, " ", l), nil)
-							return
-						}
-						if evs := lst.Poll(); len(evs) != 0 {
-							r.Violation("subscriber:event-after-rejected-head:"+name, key, fmt.Sprintf("%s %+v", mode, evs[0]), nil)
-							return
-						}
-						r.Outcome("subscriber-rejected-" + mode)
-					})
-					if leak != "" {
-						r.Count("bubble_leaks", 1)
-						r.Note("goroutines left in bubble for %s: %s", key, firstLine(leak))
 					}
 				}
 			}
